@@ -94,7 +94,12 @@ Inductive case :=
 | CExtract (b0 : N) (sg : list N) (impl : N)            (* extractBeta *)
 | CWalk (consdir : bool) (b0 : N) (sg : list N) (segid0 : N) (hs : list hopv)
         (impl : list (nat * bool * list N))
-    (* SegIDs the real routers verified with, hop by hop *).
+    (* SegIDs the real routers verified with, hop by hop *)
+| CMacIn (b0 : N) (sg : list N) (i : nat) (peer : bool) (impl : N)
+    (* the SegID inside the MAC input of a hop field produced by the real extender: [sg] are the
+       MAC prefixes of the finished segment, [i] the AS entry, [peer] whether the hop field is one
+       of its peer entries; [impl] = the unique 16-bit value under which the hop field's MAC
+       verifies with the AS key (found by trying all of them), 65536 if there is none or several *).
 
 Definition obs_eqb (a b : nat * bool * list N) : bool :=
   Nat.eqb (fst (fst a)) (fst (fst b)) && Bool.eqb (snd (fst a)) (snd (fst b)) &&
@@ -116,6 +121,12 @@ Definition check (c : case) : N :=
   | CExtract b0 sg impl => Check.verdict (N.eqb (extract_beta b0 sg) impl) true
   | CWalk cd b0 sg s0 hs impl =>
     Check.verdict (list_eqb obs_eqb (fst (walk cd s0 hs)) impl) (walk_ok b0 sg impl)
+  | CMacIn b0 sg i p impl =>
+    (* model of the extender: extractBeta over the entries present at extension time, for a peer
+       entry folded with the new hop's MAC prefix; oracle: the construction-time value *)
+    let at_ext := extract_beta b0 (firstn i sg) in
+    let m := if p then N.lxor at_ext (nth i sg 0) else at_ext in
+    Check.verdict (N.eqb m impl) (N.eqb impl (construction_segid b0 sg i p))
   end.
 
 Definition diag (c : case) : list (nat * bool * list N) :=
@@ -123,6 +134,8 @@ Definition diag (c : case) : list (nat * bool * list N) :=
   | CBeta b0 sg d sc p _ => [(0%nat, false, [calculate_beta b0 sg d sc p])]
   | CExtract b0 sg _ => [(0%nat, false, [extract_beta b0 sg])]
   | CWalk cd _ _ s0 hs _ => fst (walk cd s0 hs)
+  | CMacIn b0 sg i p _ =>
+    [(i, p, [if p then N.lxor (extract_beta b0 (firstn i sg)) (nth i sg 0) else extract_beta b0 (firstn i sg)])]
   end.
 
 End SegID.
